@@ -361,7 +361,7 @@ def gen_case(rng, verb=None):
     tail = []
     if verb == "framer":
         head = ["framer", name]
-        pool = {"at": [r.choice(["0.5", "1", "0", "-2", "0x10", "1e1", "nan", "inf", "2.5e-1"])],
+        pool = {"at": [r.choice(["0.5", "1", "0", "-2", "0x10", "1e1", "nan", "inf", "2.5e-1", "1j", "2+1j"])],
                 "be": [r.choice(["active", "inactive", "aux", "slave", "moot"])],
                 "in": [r.choice(["front", "mid", "back"])],
                 "first": [r.choice(NAMES)],
